@@ -209,8 +209,61 @@ fn make_seq(id: u64, msg: &[u8], cut: &[usize]) -> Seq {
     Seq { id, n: cut.len() as u64, parts, cache }
 }
 
+/// The expiry clause on the real clock: a three-fragment sequence whose fragments arrive 400 ms apart (timeout 600 ms),
+/// with `cleanup_expired` before every arrival, in all six arrival orders - the sequence is never older than one gap,
+/// so it must complete at the third arrival whichever fragment came first; and an incomplete sequence left alone for
+/// longer than the timeout is dropped by `cleanup_expired`. Gaps are measured; a run whose measured gap comes within
+/// 15 % of the timeout (machine under load) is repeated and, failing that, not judged.
+fn timed_expiry(rep: &Report) -> serde_json::Value {
+    use std::time::Instant;
+    let t = Duration::from_millis(600);
+    let g = Duration::from_millis(400);
+    let perms: Vec<Vec<u64>> = vec![vec![3, 2, 1], vec![3, 1, 2], vec![2, 3, 1], vec![2, 1, 3], vec![1, 3, 2], vec![1, 2, 3]];
+    let inconclusive = std::sync::atomic::AtomicU64::new(0);
+    let judged = std::sync::atomic::AtomicU64::new(0);
+    perms.par_iter().for_each(|perm| {
+        for _attempt in 0..3 {
+            let mut a = FragmentAssembler::with_timeout(t);
+            let mut results = vec![];
+            let mut prev_before: Option<Instant> = None;
+            let mut worst = Duration::ZERO;
+            for (k, &id) in perm.iter().enumerate() {
+                if k > 0 { std::thread::sleep(g); a.cleanup_expired(); }
+                let before = Instant::now();
+                let r = if id == 3 { a.start_fragment(77u64, 3, None, vec![3, 3]) } else { a.add_fragment(77u64, id, vec![id as u8]) };
+                let after = Instant::now();
+                if let Some(p) = prev_before { worst = worst.max(after - p); }
+                prev_before = Some(before);
+                results.push(r.is_some());
+            }
+            if worst >= t.mul_f64(0.85) { continue; }
+            judged.fetch_add(1, std::sync::atomic::Ordering::Relaxed);
+            rep.add("evaluations", 1);
+            if results != vec![false, false, true] || a.pending_count() != 0 {
+                rep.violation("a sequence whose fragments kept arriving within the timeout was dropped or not completed at its last fragment", json!({"arrival_order_of_fragment_ids": perm, "completed_at": results, "pending_after": a.pending_count(), "timeout_ms": 600, "gap_ms": 400, "largest_measured_gap_ms": worst.as_millis() as u64}));
+            }
+            return;
+        }
+        inconclusive.fetch_add(1, std::sync::atomic::Ordering::Relaxed);
+    });
+    // the other half: silence longer than the timeout
+    for first in [3u64, 1] {
+        let mut a = FragmentAssembler::with_timeout(Duration::from_millis(150));
+        let _ = if first == 3 { a.start_fragment(5u64, 3, None, vec![1]) } else { a.add_fragment(5u64, 1, vec![1]) };
+        std::thread::sleep(Duration::from_millis(400));
+        let dropped = a.cleanup_expired();
+        rep.add("evaluations", 1);
+        if dropped != 1 || a.pending_count() != 0 {
+            rep.violation("an incomplete sequence older than the timeout is still held after cleanup", json!({"first_fragment_id": first, "dropped": dropped, "pending": a.pending_count()}));
+        }
+    }
+    json!({"orders_judged": judged.into_inner(), "orders_not_judged_because_the_machine_was_too_slow": inconclusive.into_inner()})
+}
+
 pub fn run(rep: &Report) -> serde_json::Value {
     let thorough = rep.thorough();
+    let timed = timed_expiry(rep);
+    rep.set_extra("timed_expiry", timed);
     let mut scenarios: Vec<(String, Scenario)> = vec![];
     // single sequence: every message length, fragment count, cut
     let max_len = 6usize;
